@@ -69,6 +69,11 @@ DEFAULT_PROFILE: Dict[str, Any] = {
     'method_alias_reexport': 0.0,  # `meth = K.meth` at module level and re-exported (finding C02-4)
     'module_reexport': 0.0,   # `from . import sub` with 'sub' in __all__
     'tc_guard': 0.1,          # probability an import sits under `if TYPE_CHECKING:`
+    'rebind_same': 0.0,       # probability that an import statement may bind again a name that already denotes the same object
+    'shadow_import': 0.0,     # probability per module of `try: from pkg._speedups import X / except ImportError: pass` after `class X`
+    'max_bases': 2,           # bases per class
+    'root_clash': 0.0,        # probability that a sub-module (and sometimes a class) is named like the single root package
+    'alias_pool': False,      # module aliases are drawn from a small pool so that different scopes bind the same alias name differently
     'var_ann': 0.0,           # probability that a variable is annotated with a class visible in its scope
     'attr_pool': 0.0,         # probability per class that its attributes come from a small name pool, as class variable,
                               # annotated declaration or instance variable set in __init__ (so that overriding chains arise)
@@ -143,7 +148,10 @@ class _Gen:
             else:
                 nm = names.pop()
             children.append(nm)
-        for nm in sorted(children):
+        if nroots == 1 and rng.chance(p.get('root_clash', 0)):
+            children.append(pk)          # a sub-module named like the (only) root package
+            self.exotic_layout = True
+        for nm in sorted(set(children)):
             self._addmod(f'{pk}.{nm}', False)
         if rng.chance(p['subpkg']) and len(self.modules) < p['max_modules'] - 1:
             sp = rng.choice(SUBPKGNAMES)
@@ -183,6 +191,8 @@ class _Gen:
         cands = self.class_refs(rng, mod, scope_ns, outer)
         if cands and rng.chance(0.7):
             k = 1 if rng.chance(0.7) else 2
+            if p.get('max_bases', 2) >= 3 and rng.chance(0.5):
+                k = 3
             chosen = []
             seen_ids = set()
             for r in rng.shuffled(cands):
@@ -237,6 +247,8 @@ class _Gen:
                     t = rng.choice(cands_t)
                     self.alias_n += 1
                     al = f'cal{self.alias_n}'
+                    if p.get('alias_pool'):
+                        al = rng.choice(self.ALIAS_POOL)
                     self.cns[cid][al] = ['m', t]
                     self.cns_vias.setdefault(cid, {})[al] = t
                     st['body'].append({'k': 'import', 'mod': t, 'as': al, 'guard': None})
@@ -260,6 +272,16 @@ class _Gen:
         or deliberately inconsistent with probability p['inconsistent']."""
         if len(chosen) < 2:
             return chosen
+        if len(chosen) > 2:
+            import itertools
+            perms = rng.shuffled(list(itertools.permutations(chosen)))
+            good = [list(pm) for pm in perms if self._lin_ok([r['id'] for r in pm])]
+            bad = [list(pm) for pm in perms if not self._lin_ok([r['id'] for r in pm])]
+            if rng.chance(self.p['inconsistent']) and bad:
+                return bad[0]
+            if good:
+                return good[0]
+            return self.order_bases(rng, chosen[:2])
         a, b = chosen[0], chosen[1]
         ok_ab = self._lin_ok([a['id'], b['id']])
         ok_ba = self._lin_ok([b['id'], a['id']])
@@ -313,6 +335,7 @@ class _Gen:
 
     METHOD_POOL = ['run', 'stop', 'size', 'name_of']
     ATTR_POOL = ['xa', 'xa', 'xa', 'yb']
+    ALIAS_POOL = ['ma', 'mb', 'mc']
 
     def mk_func(self, rng: Rng, mod: str, outer: Optional[int] = None) -> Dict[str, Any]:
         fid_ = self.fid()
@@ -353,7 +376,10 @@ class _Gen:
     def class_refs(self, rng: Rng, mod: str, scope_ns: Dict[str, List[Any]], outer: Optional[int]) -> List[Dict[str, Any]]:
         """Every expression that currently denotes a class in module scope ``mod``."""
         out: List[Dict[str, Any]] = []
+        shadowed = set(self.cns[outer]) if outer is not None else set()
         for name, b in scope_ns.items():
+            if name in shadowed:
+                continue      # the class body binds this name itself
             route = self._routes.get((mod, name), 'local')
             via = self._vias.get((mod, name))
             if b[0] == 'd':
@@ -422,6 +448,9 @@ class _Gen:
             return None
         forms: List[Tuple[str, float]] = []
         importable = [n for n in tns if n not in ns and not self._clash(mod, n)]
+        if p.get('rebind_same', 0) and rng.sub('rebind').chance(p['rebind_same']):
+            # importing a name a second time (it already denotes the same object here) is harmless in Python
+            importable += [n for n in tns if n in ns and ns[n] == tns[n] and self._routes.get((mod, n)) in ('from', 'star')]
         if importable:
             forms.append(('from', 5))
         forms.append(('import', 2))
@@ -431,7 +460,8 @@ class _Gen:
             forms.append(('frompkg', 2))
         if p['star'] > 0:
             exported = self.exported(target)
-            if exported and all(n not in ns for n in exported):
+            if exported and all(n not in ns or (p.get('rebind_same', 0) and ns[n] == tns[n]
+                                                and self._routes.get((mod, n)) in ('from', 'star')) for n in exported):
                 forms.append(('star', 10 * p['star']))
         form = rng.weighted(forms)
         guard = None
@@ -452,6 +482,7 @@ class _Gen:
                 self._routes[(mod, bound)] = 'from-as' if asn else 'from'
                 self._vias[(mod, bound)] = target
                 self._origin[(mod, bound)] = (target, n)
+                self._origins.setdefault((mod, bound), []).append((target, n))
                 names.append([n, asn])
             st = {'k': 'from', 'mod': target, 'level': level, 'rel': rel, 'names': names, 'guard': guard}
         elif form == 'import':
@@ -459,6 +490,8 @@ class _Gen:
             if rng.chance(0.5):
                 self.alias_n += 1
                 asn = f'al{self.alias_n}'
+                if p.get('alias_pool'):
+                    asn = rng.choice(self.ALIAS_POOL)
                 if asn in ns:
                     return None
                 ns[asn] = ['m', target]
@@ -503,6 +536,7 @@ class _Gen:
                 self._routes[(mod, n)] = 'star'
                 self._vias[(mod, n)] = target
                 self._origin[(mod, n)] = (target, n)
+                self._origins.setdefault((mod, n), []).append((target, n))
             st = {'k': 'from', 'mod': target, 'level': level, 'rel': rel, 'names': '*', 'guard': None}
         self.edges.append((mod, target))
         for pf in prefixes:
@@ -628,6 +662,17 @@ class _Gen:
                 else:
                     body[i] = {'k': form, 'then': [st], 'else': [st2]}
                 self.exotic.add('dup')
+        # optional C speed-ups idiom: the module imports, after defining it, a replacement of the same name
+        if rng.chance(p.get('shadow_import', 0)):
+            cands = [st for st in body if st['k'] in ('class', 'func')]
+            if cands:
+                st0 = rng.choice(cands)
+                pkg = mod if m['pkg'] else (self.parent_of(mod) or mod)
+                ghost = f'{pkg}._speedups'
+                if ghost not in self.modules:
+                    body.insert(body.index(st0) + 1, {'k': 'tryexcept', 'else': [], 'then': [
+                        {'k': 'from', 'mod': ghost, 'level': 0, 'rel': ghost, 'names': [[st0['name'], None]], 'guard': None}]})
+                    self.exotic.add('shadow_import')
         # duplicate definition of a member inside a class body (the class may later be moved by a re-export)
         if rng.chance(p['dup'] * 0.6):
             classes = [st for st in body if st['k'] == 'class' and any(ms['k'] == 'func' for ms in st['body'])]
@@ -795,14 +840,17 @@ class _Gen:
                     continue
                 # moved only if the module it is imported from does not list it in its own __all__
                 allnames.append(n)
-                org_mod, org_name = self._origin[(mod, n)]
-                src_all = self.modules[org_mod]['all']
-                if src_all is None or org_name not in src_all:
+                # every import statement that binds n is a chance to move the object: it is moved by the first one
+                # whose source module does not itself list the name in __all__
+                origins = self._origins.get((mod, n)) or [self._origin[(mod, n)]]
+                moving = [(om, on) for om, on in origins
+                          if self.modules[om]['all'] is None or on not in self.modules[om]['all']]
+                if moving:
                     self.reexporters.setdefault(i, []).append(mod)
                     self.loc[i] = [mod, n]
                     d = self.defs[i]
-                    direct = (org_mod == d['module'] and org_name == d['name'] and
-                              self._routes.get((org_mod, org_name)) == 'local')
+                    direct = all(om == d['module'] and on == d['name'] and self._routes.get((om, on)) == 'local'
+                                 for om, on in origins)
                     self.reexport_direct[i] = self.reexport_direct.get(i, True) and direct
             if p['method_alias_reexport'] > 0:
                 for n, b in ns.items():
@@ -821,6 +869,7 @@ class _Gen:
         self._vias: Dict[Tuple[str, str], Any] = {}
         self._plain_imports: Dict[str, List[str]] = {}
         self._origin: Dict[Tuple[str, str], Tuple[str, str]] = {}
+        self._origins: Dict[Tuple[str, str], List[Tuple[str, str]]] = {}
         self.done: List[str] = []
         self.exotic: set = set()
         self.cns_origin: Dict[int, Dict[str, List[str]]] = {}
@@ -830,6 +879,8 @@ class _Gen:
         self.method_aliases: List[Tuple[str, str, int]] = []
         self.rng_rel = self.rng.sub('rel')
         self.layout()
+        if getattr(self, 'exotic_layout', False):
+            self.exotic.add('root_clash')
         order = self.rng.sub('pi').shuffled(list(self.modules))
         if self.p['consumer_roots']:
             # modules of secondary roots come last in the import order: they are the consumers
